@@ -5,6 +5,7 @@ import (
 	"fmt"
 	"os"
 	"path/filepath"
+	"regexp"
 	"sort"
 	"strings"
 	"sync"
@@ -182,7 +183,7 @@ func (e *env) recycle(col *sqlgen.Collector, rebuild bool) {
 					break
 				}
 			}
-			col.Violation("C16/query-capture-file/literal-in-captured-query",
+			col.Violation("C16/query-capture-file/literal-in-captured-query"+captureClass(string(b)),
 				fmt.Sprintf("[%s] the query_capture file of configuration %s contains a marker literal: %s", sqlgen.Current, lc.cfg.Name, trunc(line, 300)), nil)
 		}
 		col.Class("capture-file-checked", 1)
@@ -209,3 +210,30 @@ func trunc(s string, n int) string {
 }
 
 func setLevel(l logrus.Level) { logrus.SetLevel(l) }
+
+var (
+	hexNumberMarker  = regexp.MustCompile(`(?i)0x` + sqlgen.MarkerDigits)
+	longIntMarker    = regexp.MustCompile(sqlgen.MarkerDigits + `[0-9]{20,}`)
+	markerWithPrefix = regexp.MustCompile(`(?i)(0x)?(` + sqlgen.MarkerLetters + `|` + sqlgen.MarkerDigits + `[0-9]*|` + regexp.QuoteMeta(sqlgen.MarkerExp) + `|` + sqlgen.MarkerBits + `)`)
+)
+
+// captureClass narrows the finding key when EVERY marker left in the capture file is of one of
+// the two literal kinds that Acra's own parser tests require to stay as they are (0x.. numbers
+// and integers beyond int64); any other marker keeps the plain key.
+func captureClass(content string) string {
+	kinds := map[string]bool{}
+	for _, m := range markerWithPrefix.FindAllString(content, -1) {
+		switch {
+		case hexNumberMarker.MatchString(m):
+			kinds["hex-number"] = true
+		case longIntMarker.MatchString(m):
+			kinds["integer-beyond-int64"] = true
+		default:
+			return ""
+		}
+	}
+	if len(kinds) == 0 {
+		return ""
+	}
+	return "/only-hex-numbers-and-integers-beyond-int64"
+}
